@@ -124,7 +124,9 @@ func (m MemCache) retrieve(id uint16, addr net.IP) (TemplateRecord, bool) {
 func (m MemCache) allSetIds() []int {
 	num := 0
 	for _, shard := range m {
+		shard.RLock()
 		num += len(shard.Templates)
+		shard.RUnlock()
 	}
 	result := make([]int, 0, num)
 	for _, shard := range m {
